@@ -655,11 +655,11 @@ func TestVerifC10(t *testing.T) {
 		return
 	}
 
-	d3, d2 := 6, 8
+	d3, d2 := 8, 10
 	V := uint64(3)
 	T := 5
 	if r.Thorough() {
-		d3, d2, V, T = 8, 10, 4, 6
+		d3, d2, V, T = 9, 11, 4, 6
 	}
 	r.Note("depth_3_replicas", d3)
 	r.Note("depth_2_replicas", d2)
